@@ -143,10 +143,12 @@ def isar_elements(deps, kinds):
                 out[n] = '<typedef name="%s" primitiveType="16 bit integer unsigned"/>' % nm(n)
         elif k == "union":
             disc = union_discriminators(ds, kinds)
-            arms = "".join('<member name="a%d" type="%s" discriminatorValue="%s"/>' % (d, nm(d), disc[d][0]) for d in ds)
+            # two arms of one builtin type first: a type name repeated before the first new one
+            arms = '<member name="o1" type="u8" discriminatorValue="250"/><member name="o2" type="u8" discriminatorValue="251"/>'
+            arms += "".join('<member name="a%d" type="%s" discriminatorValue="%s"/>' % (d, nm(d), disc[d][0]) for d in ds)
             out[n] = '<union name="%s">%s</union>' % (nm(n), arms)
         else:
-            members = ['<member name="own" type="u8"/>']
+            members = ['<member name="own" type="u8"/>', '<member name="own2" type="u8"/>']
             for d in ds:
                 if kinds[d] == "constant":
                     members.append('<member name="arr%d" type="u16"><dimension size="%s"/></member>' % (d, nm(d)))
@@ -180,9 +182,10 @@ def schema_env_for_graph(deps, kinds):
             defs.append(S.TypedefDef(S.Ref(idx[ds[0]]) if ds else S.Int(2)))
         elif k == "union":
             disc = union_discriminators(ds, kinds)
-            defs.append(S.UnionDef([{"d": disc[d][1], "t": S.Ref(idx[d])} for d in ds]))
+            defs.append(S.UnionDef([{"d": 250, "t": S.Int(1)}, {"d": 251, "t": S.Int(1)}] +
+                                   [{"d": disc[d][1], "t": S.Ref(idx[d])} for d in ds]))
         else:
-            ms = [S.Mem("plain", S.Int(1))]
+            ms = [S.Mem("plain", S.Int(1)), S.Mem("plain", S.Int(1))]
             for d in ds:
                 if kinds[d] == "constant":
                     ms.append(S.Mem("fixed", S.Int(2), consts[d]))
